@@ -557,6 +557,14 @@ func (d *Driver) startable(c *ClientState) bool {
 	if c.Connected {
 		return false
 	}
+	if c.Plan.StartAfterEvents {
+		for _, e := range d.events {
+			if !e.Fired {
+				return false
+			}
+		}
+		return true
+	}
 	if c.Plan.StartAfterClient > 0 {
 		o := d.Clients[c.Plan.StartAfterClient-1]
 		return d.clientFinished(o)
@@ -895,10 +903,18 @@ func (d *Driver) observe() {
 // settle: faults off, fair round-robin until nothing changes (and long enough for timeouts to fire when something is outstanding)
 func (d *Driver) settle() {
 	d.phase = "settle"
+	d.fireEvents()
+	for _, e := range d.events {
+		if !e.Fired {
+			// its trigger never came true in the workload phase (e.g. the request was rejected): no faults in the settle phase
+			e.Fired = true
+			d.count("ev_skipped")
+		}
+	}
 	t0 := time.Now()
 	maxFake := time.Duration(d.P.Sched.SettleS) * time.Second
 	quiet := 0
-	for time.Since(t0) < maxFake+time.Second {
+	for iter := 0; time.Since(t0) < maxFake+time.Second && iter < 4000; iter++ {
 		d.Step++
 		d.fireEvents()
 		changed := false
